@@ -178,6 +178,11 @@ func endpointGroup(e *Exporter, thorough bool) *Group {
 				envURL("valid(path)", -1, "http://"+h(p+"2")+"/"+p+"/path", h(p+"2"), "/"+p+"/path"),
 				envURL("valid(trailing slash)", -1, "http://"+h(p+"2")+"/"+p+"/path/", h(p+"2"), "/"+p+"/path/"),
 				envURL("valid(https, path)", -1, "https://"+h(p+"3")+"/"+p+"3", h(p+"3"), "/"+p+"3"),
+				// a base URL whose own path already ends in the signal path (somebody pasted the full
+				// URL of another collector): as a generic value it is still a base -- the signal path
+				// is appended --, as a signal-specific value it is used as it is
+				envURL("valid(path ends in the signal path)", -1, "http://"+h(p+"4")+"/"+p+e.SigPath, h(p+"4"), "/"+p+e.SigPath),
+				envURL("valid(path is the signal path)", -1, "http://"+h(p+"5")+e.SigPath, h(p+"5"), e.SigPath),
 			)
 		} else {
 			as = append(as, envURL("valid(https)", -1, "https://"+h(p+"3"), h(p+"3"), ""))
